@@ -15,7 +15,7 @@ func runC12NewCells(x *X) {
 	keys := []interface{}{pkey("k1"), pkey("k2")}
 	keyNames := []string{"k1", "k2"}
 	depth := x.Pick(5, 6)
-	x.Explore("new-cells-start-empty", ExploreOpts{ShardDepth: 2, Bound: fmt.Sprintf("table header(t,u) + row(t,u); all sequences of <=%d operations {set k1/k2 on the last row's first/second cell, AddRowItems(t,u) again, AddRowItems(u,t), AddRowItems(other), AddSeparator, AppendNewRow+Add(t), AddHeaders(t,u) again, render pass}; every cell read for both keys after each step", depth)}, func(c *Chooser) {
+	x.Explore("new-cells-start-empty", ExploreOpts{ShardDepth: 2, Bound: fmt.Sprintf("table header(t,u) + row(t,u); all sequences of <=%d operations {set k1/k2 on the last row's first/second cell or on the last row itself (separators too), AddRowItems(t,u) again, AddRowItems(u,t), AddRowItems(other), AddSeparator, AppendNewRow+Add(t), AddHeaders(t,u) again, render pass}; every cell read for both keys after each step", depth)}, func(c *Chooser) {
 		t := tabular.New()
 		t.AddHeaders("t", "u")
 		t.AddRowItems("t", "u")
@@ -43,6 +43,14 @@ func runC12NewCells(x *X) {
 							return cp
 						}, model: map[interface{}]interface{}{}})
 					}
+				}
+			}
+			for ri := range t.AllRows() {
+				// rows (separator rows included) own properties too; a new row starts without any
+				name := fmt.Sprintf("row(%d)", ri+1)
+				if !known[name] {
+					ri := ri
+					owners = append(owners, &pOwner{name: name, get: func() tabular.PropertyOwner { return t.AllRows()[ri] }, model: map[interface{}]interface{}{}})
 				}
 			}
 			for ci := range t.Headers() {
@@ -77,7 +85,7 @@ func runC12NewCells(x *X) {
 		var ops []string
 		sets := 0
 		for step := 0; step < depth; step++ {
-			k := c.Choose(11)
+			k := c.Choose(13)
 			if k == 0 {
 				break
 			}
@@ -96,6 +104,19 @@ func runC12NewCells(x *X) {
 				name = fmt.Sprintf("%s.SetProperty(%s, %s)", row[ci].name, keyNames[ki], v)
 				row[ci].get().SetProperty(keys[ki], v)
 				row[ci].model[keys[ki]] = v
+			case 11, 12:
+				// a property on the last row of the table, whatever it is (a separator, too)
+				rr := t.AllRows()
+				rn := fmt.Sprintf("row(%d)", len(rr))
+				for _, o := range owners {
+					if o.name == rn {
+						sets++
+						v := fmt.Sprintf("v%d", sets)
+						name = fmt.Sprintf("%s.SetProperty(%s, %s)", rn, keyNames[k-11], v)
+						o.get().SetProperty(keys[k-11], v)
+						o.model[keys[k-11]] = v
+					}
+				}
 			case 5:
 				name = `t.AddRowItems("t", "u")   // same texts as the row above`
 				t.AddRowItems("t", "u")
